@@ -152,6 +152,7 @@ class DictCache(collections.abc.MutableMapping):
         if key in self.long_term_keys:
             self.long_term_keys.remove(key)
             self.long_term_storage.delete(key)
+            self.short_term_cache.pop(key, None)
 
     def __contains__(self, key):
         return key in self.long_term_keys
